@@ -3,7 +3,8 @@ CFG = {
         "props": ["EraVerif.Props.C13"],
         "required_theorems": ["frame_size_limits", "frame_shape", "writer_frames", "transport_writes_bounded",
                               "write_progress", "flush_pushes_everything", "reader_any_stream", "reader_step_exact",
-                              "read_failure_final", "parse_frames", "tamper_prefix_only", "end_to_end"],
+                              "read_failure_final", "parse_frames", "tamper_prefix_only", "end_to_end", "reader_drains",
+                              "full_delivery"],
         "technique": "Lean 4 theorems (unbounded: all call sequences, sizes, transport behaviours, byte streams) about an "
                      "executable transcription of noise/bytes.rs and the poll_* functions of noise/stream.rs, constants "
                      "regenerated from stream.rs (translator); differential run of the real noise::Stream over a "
@@ -22,7 +23,9 @@ CFG = {
                       "failure is final (read_failure_final). For any stream assembled from attacker-chosen bytes and bytes of "
                       "the authentic wire in any arrangement (modification, truncation, reordering, replay, insertion) the "
                       "delivered plaintext is a prefix of the authentic plaintext (tamper_prefix_only); writer and reader "
-                      "composed deliver a prefix always and exactly the accepted plaintext once flushed (end_to_end). No panic "
+                      "composed deliver a prefix always and exactly the accepted plaintext once flushed (end_to_end); with a delivering "
+                      "transport N >= |accepted| reads of any buffer size return exactly the accepted plaintext and then "
+                      "stand at a clean end of stream (reader_drains, full_delivery). No panic "
                       "(debug_assert / slice index) is reachable in any of these. The constants are re-translated from "
                       "stream.rs on every run. Correspondence: the real noise::Stream (real snow ChaChaPoly session after a "
                       "real NN handshake) is driven poll by poll over a scripted transport and compared with the model on "
